@@ -94,6 +94,9 @@ pub fn icfc_release_post(old: Icfc, a: i128, new: Icfc) -> bool {
     icfc_release_consumed_adds(old, a, new) && icfc_release_advertised_rule(old, a, new)
 }
 
+// on_transmit(): `wrote` = a MAX_DATA frame was put on the wire, `wire` = the value it carries
+pub fn icfc_transmit_wire_is_advertised(s: Icfc, wrote: bool, wire: i128) -> bool { !wrote || wire == s.advertised }
+
 // ---- ReceiveStreamFlowController: abstraction ------------------------------------------------------------
 // advertised: read_window_sync.latest_value (largest MAX_STREAM_DATA); acquired: highest offset charged to the
 // connection; released: bytes read by the application (or discarded on reset); window: desired window
@@ -149,6 +152,9 @@ pub fn rsfc_release_post(old: Rsfc, a: i128, new: Rsfc, c_old: Icfc, c_new: Icfc
 // release_outstanding_window() == release_window(acquired - released)
 pub fn rsfc_outstanding(old: Rsfc) -> i128 { old.acquired - old.released }
 
+// read_window_sync.on_transmit(): `wrote` = a MAX_STREAM_DATA frame was put on the wire carrying `wire`
+pub fn rsfc_transmit_wire_is_advertised(s: Rsfc, wrote: bool, wire: i128) -> bool { !wrote || wire == s.advertised }
+
 // ---- RemoteInitiated stream-count controller: abstraction -------------------------------------------------
 // advertised: max_streams_sync.latest_value (largest MAX_STREAMS we are willing to send, cumulative);
 // opened / closed: peer-initiated streams opened / closed so far; local_limit: max_local_limit (concurrency)
@@ -182,6 +188,9 @@ pub fn ri_timeout_post(old: Ri, new: Ri) -> bool {
 }
 // with a full token bucket the whole backlog of closed streams is handed back at once
 pub fn ri_timeout_full_bucket(old: Ri, new: Ri) -> bool { new.advertised == imin(max_streams_max(), old.closed + old.local_limit) }
+
+// on_transmit(): timeout step, then `wrote` = a MAX_STREAMS frame was put on the wire carrying `wire`
+pub fn ri_transmit_wire_is_advertised(new: Ri, wrote: bool, wire: i128) -> bool { !wrote || wire == new.advertised }
 
 // ---- buffer::reassembler::Cursors: abstraction (fin == -1: final size unknown) ----------------------------
 #[derive(Clone, Copy)]
